@@ -298,6 +298,26 @@ func vfHelloRewrites() []vfRewrite {
 
 		return true
 	})
+	// a server_name the client never sent (a client that offers none): on the cookie-less hello no transcript covers it,
+	// and the server must not keep it for the hello that follows
+	hello("ext0-add-server-name", func(h *vfHello) bool {
+		if !h.Client {
+			return false
+		}
+		for _, x := range h.Exts {
+			if x.Type == 0 {
+				return false
+			}
+		}
+		name := "evil.example"
+		d := binary.BigEndian.AppendUint16(nil, uint16(len(name)+3))
+		d = append(d, 0)
+		d = binary.BigEndian.AppendUint16(d, uint16(len(name)))
+		h.Exts = append(h.Exts, vfExt{0, append(d, name...)})
+		h.HasExts = true
+
+		return true
+	})
 	for _, typ := range []uint16{0, 10, 11, 13, 14, 16, 23, 43, 44, 50, 51, 54, 61, 65281} {
 		typ := typ
 		hello(fmt.Sprintf("ext%d-strip", typ), func(h *vfHello) bool {
